@@ -434,4 +434,182 @@ theorem findInRangeL_requests_sum (av : Avail) (t : Int) (f lo hi : Nat) (h : lo
   have hm := clog_mono (hi - lo - adjRun av lo hi) (hi - lo) (by have := adjRun_lt av lo hi h; omega) (by omega)
   omega
 
+/-! ### the ascent of findBound and the whole lookup -/
+
+def countAv (av : Avail) (l : List Nat) : Nat := (l.filter fun n => (av n).isSome).length
+def countMiss (av : Avail) (l : List Nat) : Nat := (l.filter fun n => (av n).isNone).length
+
+theorem count_cons_av (av : Avail) (n : Nat) (l : List Nat) (ts : Int) (h : av n = some ts) :
+    countAv av (n :: l) = countAv av l + 1 ∧ countMiss av (n :: l) = countMiss av l := by
+  simp [countAv, countMiss, List.filter_cons, h]
+
+theorem count_cons_miss (av : Avail) (n : Nat) (l : List Nat) (h : av n = none) :
+    countAv av (n :: l) = countAv av l ∧ countMiss av (n :: l) = countMiss av l + 1 := by
+  simp [countAv, countMiss, List.filter_cons, h]
+
+theorem clog_fresh (x u : Nat) (hx : 1 ≤ x) (hu : 2 ≤ u) (h : 2 * x ≤ u + 1) : clog x + 1 ≤ clog u := by
+  have h1 := clog_half u hu
+  have h2 := clog_mono x ((u + 1) / 2) hx (by omega)
+  omega
+
+/-- **the ascent of `findBound`**: the requests that hit an existing state file are at most a logarithm of the
+    current sequence number plus the requests that hit a missing file (plus a constant) — every availability
+    pattern, any fuel. A step down to a new upper bound either follows directly on the previous one (then the
+    bound is halved) or was preceded by at least one step over a missing file. -/
+theorem findBoundL_requests (av : Avail) (t : Int) :
+    ∀ f l u, 1 ≤ l → l < u →
+      countAv av (findBoundL av t f l u).2 ≤ clog u + countMiss av (findBoundL av t f l u).2 + (if 2 * l ≤ u + 1 then 1 else 2) := by
+  intro f
+  induction f with
+  | zero => intro l u _ _; simp [findBoundL, countAv]
+  | succ f ih =>
+    intro l u hl hlu
+    unfold findBoundL
+    cases hav : av l with
+    | none =>
+      -- a missing file: climb to the midpoint
+      simp only [boundStep, hav]
+      split
+      · -- done
+        rename_i lo hi hstep
+        have := (count_cons_miss av l [] hav)
+        simp only [this.1, this.2]
+        simp [countAv, countMiss]
+      · rename_i l' u' hstep
+        split at hstep
+        · cases hstep
+        · rename_i hnew
+          cases hstep
+          have hm : l < (l + u) / 2 := by omega
+          have hlt : (l + u) / 2 < u := by omega
+          have hrec := ih ((l + u) / 2) u (by omega) hlt
+          cases hr : findBoundL av t f ((l + u) / 2) u with
+          | mk r lg =>
+            rw [hr] at hrec
+            simp only at hrec ⊢
+            have := count_cons_miss av l lg hav
+            rw [this.1, this.2]
+            split at hrec <;> split <;> omega
+    | some lts =>
+      simp only [boundStep, hav]
+      by_cases hlate : lts > t
+      · simp only [hlate, if_true]
+        by_cases hadj : l + 1 ≥ u
+        · simp only [hadj, if_true]
+          have := count_cons_av av l [] lts hav
+          simp only [this.1, this.2]
+          simp [countAv, countMiss]; split <;> omega
+        · simp only [hadj, if_false]
+          by_cases hsmall : (1 + l) / 2 ≤ 1
+          · simp only [hsmall, if_true]
+            have := count_cons_av av l [] lts hav
+            simp only [this.1, this.2]
+            simp [countAv, countMiss]; split <;> omega
+          · simp only [hsmall, if_false]
+            have hrec := ih ((1 + l) / 2) l (by omega) (by omega)
+            cases hr : findBoundL av t f ((1 + l) / 2) l with
+            | mk r lg =>
+              rw [hr] at hrec
+              simp only at hrec ⊢
+              have := count_cons_av av l lg lts hav
+              rw [this.1, this.2]
+              have hfresh : 2 * ((1 + l) / 2) ≤ l + 1 := by omega
+              simp only [hfresh, if_true] at hrec
+              have hmono : clog l ≤ clog u := clog_mono l u hl (by omega)
+              by_cases hf : 2 * l ≤ u + 1
+              · have := clog_fresh l u hl (by omega) hf
+                simp only [hf, if_true]; omega
+              · simp only [hf, if_false]; omega
+      · simp only [hlate, if_false]
+        have := count_cons_av av l [] lts hav
+        simp only [this.1, this.2]
+        simp [countAv, countMiss]; split <;> omega
+
+theorem length_eq_counts (av : Avail) (l : List Nat) : l.length = countAv av l + countMiss av l := by
+  induction l with
+  | nil => rfl
+  | cons n rest ih =>
+    cases h : av n with
+    | none => have := count_cons_miss av n rest h; simp only [List.length_cons]; omega
+    | some ts => have := count_cons_av av n rest ts h; simp only [List.length_cons]; omega
+
+/-- the bounds `findBound` hands to the binary search lie inside the range it started with -/
+theorem findBoundL_range (av : Avail) (t : Int) :
+    ∀ f l u, l < u → (findBoundL av t f l u).1.1 ≤ (findBoundL av t f l u).1.2 ∧ (findBoundL av t f l u).1.2 ≤ u := by
+  intro f
+  induction f with
+  | zero => intro l u _; simp [findBoundL]
+  | succ f ih =>
+    intro l u hlu
+    unfold findBoundL
+    cases hav : av l with
+    | none =>
+      simp only [boundStep, hav]
+      split
+      · rename_i lo hi hstep
+        split at hstep
+        · cases hstep; simp
+        · cases hstep
+      · rename_i l' u' hstep
+        split at hstep
+        · cases hstep
+        · cases hstep
+          have := ih ((l + u) / 2) u (by omega)
+          cases hr : findBoundL av t f ((l + u) / 2) u with
+          | mk r lg => rw [hr] at this; simpa using this
+    | some lts =>
+      simp only [boundStep, hav]
+      by_cases hlate : lts > t
+      · simp only [hlate, if_true]
+        by_cases hadj : l + 1 ≥ u
+        · simp only [hadj, if_true]; exact ⟨by omega, Nat.le_refl _⟩
+        · simp only [hadj, if_false]
+          by_cases hsmall : (1 + l) / 2 ≤ 1
+          · simp only [hsmall, if_true]; exact ⟨Nat.le_refl _, by omega⟩
+          · simp only [hsmall, if_false]
+            have := ih ((1 + l) / 2) l (by omega)
+            cases hr : findBoundL av t f ((1 + l) / 2) l with
+            | mk r lg => rw [hr] at this; simp only at this ⊢; exact ⟨this.1, by omega⟩
+      · simp only [hlate, if_false]; exact ⟨by omega, Nat.le_refl _⟩
+
+/-- **the whole lookup when the minimum state is missing**: requests ≤ 2·⌈log₂ cur⌉ + 2·(requests of the ascent that
+    hit a missing file) + 3·(missing files between the bounds found) + 5 — again a sum -/
+theorem searchL_requests_min_missing (av : Avail) (cur min : Nat) (t : Int) (hmin : av min = none) (h1 : 1 < cur) :
+    (searchL av cur min t).2.length ≤
+      2 * clog cur + 2 * countMiss av (findBoundL av t (cur * cur + cur + 2) 1 cur).2 +
+        3 * missing av (findBoundL av t (cur * cur + cur + 2) 1 cur).1.1 (findBoundL av t (cur * cur + cur + 2) 1 cur).1.2 + 5 := by
+  have hb := findBoundL_requests av t (cur * cur + cur + 2) 1 cur (Nat.le_refl _) h1
+  have hr := findBoundL_range av t (cur * cur + cur + 2) 1 cur h1
+  have hfresh : 2 * 1 ≤ cur + 1 := by omega
+  simp only [hfresh, if_true] at hb
+  unfold searchL
+  cases hc : av cur with
+  | none => simp
+  | some cts =>
+    simp only
+    split
+    · simp
+    · simp only [hmin]
+      cases hfb : findBoundL av t (cur * cur + cur + 2) 1 cur with
+      | mk r lg =>
+        obtain ⟨lo, hi⟩ := r
+        rw [hfb] at hb hr
+        simp only at hb hr ⊢
+        have hlen := length_eq_counts av lg
+        cases hlo : av lo with
+        | none => simp only [List.length_cons]; omega
+        | some lts =>
+          simp only
+          split
+          · simp only [List.length_cons]; omega
+          · by_cases hlt : lo < hi
+            · have h2 := findInRangeL_requests_sum av t (hi - lo) lo hi hlt
+              have hm := clog_mono (hi - lo) cur (by omega) (by omega)
+              simp only [List.length_cons, List.length_append]
+              omega
+            · have : hi - lo = 0 := by omega
+              simp only [this, findInRangeL, List.length_cons, List.length_append, List.length_nil]
+              omega
+
+
 end OsmVerif.Model.Search
